@@ -390,6 +390,9 @@ SWEEP = ["logging/test_async_file_appender.cpp",
 
 # name anchors (validated by tools/rename_sweep.py; a vanished name is exit 2, see core.check_anchor_names)
 ANCHORS = {
+    'set_page_allocator': ['^babylon::LogStreamBuffer(<|$)'],
+    'page_allocator': ['^babylon::AsyncFileAppender(<|$)'],
+    'begin': ['^babylon::LogStreamBuffer(<|$)'],
     '_destinations': ['^babylon::AsyncFileAppender(<|$)'],
     '_pages': ['^babylon::LogStreamBuffer(<|$)'],
     '_pages_end': ['^babylon::LogStreamBuffer(<|$)'],
